@@ -4,7 +4,7 @@
 
 REAL = ["core (Location, IndexedState, LinearState, PatternIndex, TermIndex, query, events, javascript)",
         "core.MemStorage", "dependencies otto / sheens match / cronexpr / boltdb unmodified"]
-STUB_COMMON = ["SimStorage wrapper (journal, latency, error and crash injection) around the real back end",
+STUB_COMMON = ["SimStorage wrapper (journal, latency, error and crash injection) around the real back end", "SimCron behind the real cron.AddHooks state hooks (as a System installs them)",
                "fake clock of testing/synctest (go1.26.8)"]
 
 def tiers(q_runs, q_budget, t_runs, t_budget, race=None, prace=None, **kw):
